@@ -205,18 +205,14 @@ func (c *Catalog) Apply(o Op) bool {
 		if other == "" || x == nil || x.State != "created" || c.LiveColl(o.DB, other) != nil {
 			return false
 		}
-		// (scope: collections without user partitions, on either side of the rename)
+		// (scope: the renamed collection has no user partitions at the time of the rename - it may get them afterwards; the
+		// dropped holder of the name it takes over may have had them)
 		for _, p := range c.Parts {
 			if p.State == "tombstone" {
 				continue
 			}
 			if p.Coll == x.ID {
 				return false
-			}
-			for _, y := range c.Colls {
-				if y.ID == p.Coll && y.DB == o.DB && y.Name == other && y.State != "tombstone" {
-					return false
-				}
 			}
 		}
 		x.Name = other
